@@ -261,7 +261,61 @@ func c16() {
 			R.Sample(map[string]any{"case": id, "entries": cd.Entries, "tmp": cd.Tmp, "reference_accepts": acc, "reference_rejects": rej, "check": fmt.Sprint(cerr)})
 		}
 	}
+	c16InitOrder(R, rng, sets)
 	c16Binary(R, rng, root, sets)
+}
+
+// c16InitOrder: Init on many small non-empty directories that also hold a .tmp work area, in both creation orders and
+// on two file systems (hashed readdir order on the work file system, creation order on tmpfs): the verdict must not depend
+// on which entry the directory listing returns first.
+func c16InitOrder(R *vr.Result, rng *rand.Rand, sets []ref.ParamSet) {
+	roots := []string{filepath.Join(workDir(), "c16-init")}
+	if shm, err := os.MkdirTemp("/dev/shm", "verif-c16-"); err == nil {
+		roots = append(roots, shm)
+		defer os.RemoveAll(shm) //nolint:errcheck
+	}
+	n := vr.Pick(1500, 6000)
+	for ri, root := range roots {
+		os.RemoveAll(root)      //nolint:errcheck
+		os.MkdirAll(root, 0700) //nolint:errcheck
+		cfg := filepath.Join(root, "store.yml")
+		for i := 0; i < n; i++ {
+			base := filepath.Join(root, fmt.Sprintf("d%d", i))
+			os.MkdirAll(base, 0700) //nolint:errcheck
+			os.WriteFile(cfg, []byte(ref.YAML(base, 1, sets)), 0600) //nolint:errcheck
+			d, err := store.NewDirFromConfig(cfg)
+			if err != nil {
+				R.Fatal = err.Error()
+				return
+			}
+			name := ref.ValidName(rng) + []string{".user", ".admin", ".txt", "", ".user"}[rng.Intn(5)]
+			tmpFirst := i%2 == 0
+			mk := func() {
+				if i%7 == 3 {
+					os.Mkdir(filepath.Join(base, name), 0700) //nolint:errcheck
+				} else {
+					os.WriteFile(filepath.Join(base, name), c16Content(rng, sets, "supported1"), 0600) //nolint:errcheck
+				}
+			}
+			if tmpFirst {
+				os.Mkdir(filepath.Join(base, ".tmp"), 0700) //nolint:errcheck
+				mk()
+			} else {
+				mk()
+				os.Mkdir(filepath.Join(base, ".tmp"), 0700) //nolint:errcheck
+			}
+			var ierr error
+			pan := vr.Safe(func() { ierr = d.Init("initadmin", "init-pw") })
+			R.Case(fmt.Sprintf("initorder|%d|%s|%v", ri, name, tmpFirst), true)
+			R.Count("init_on_nonempty_with_tmp", 1)
+			if pan != "" || ierr == nil {
+				R.Violate(fmt.Sprintf("c16:init-on-non-empty-directory:tmp-created-first=%v:fs=%d", tmpFirst, ri), fmt.Sprintf("Init succeeded on a directory holding .tmp and %q (%s)", name, pan), fmt.Sprintf("initorder/%d/%d", ri, i), map[string]any{"entry": name, "tmp_created_first": tmpFirst, "root": root})
+				break
+			}
+			os.RemoveAll(base) //nolint:errcheck
+		}
+		os.RemoveAll(root) //nolint:errcheck
+	}
 }
 
 func c16Why(why string) string {
